@@ -76,6 +76,14 @@ def run(ctx):
 
     def multi(c, exp):
         compare(ctx, "compare_pos_in_iterables", c, exp, safe(lambda: 1 if g.compare_pos_in_iterables(iter(c["a"]), list(c["b"])) else 0))
+        # every kind of argument, the same objects used again, and one object on both sides
+        la, lb = list(c["a"]), list(c["b"])
+        ta = tuple(la)
+        compare(ctx, "compare_pos_in_iterables(list,list)", c, exp, safe(lambda: 1 if g.compare_pos_in_iterables(la, lb) else 0))
+        if lb == list(c["b"]):      # (an implementation that consumes its argument is not judged on the changed list)
+            compare(ctx, "compare_pos_in_iterables(tuple,list) again on the same objects", c, exp,
+                    safe(lambda: 1 if g.compare_pos_in_iterables(ta, lb) else 0))
+        compare(ctx, "compare_pos_in_iterables(l,l)", c["b"], 1, safe(lambda: 1 if g.compare_pos_in_iterables(lb, lb) else 0))
     cases.enumerate_cases(SPEC, consts, ctx, "multiset", multi, "DomainMulti", "DefMulti")
 
     def batch(c, exp):
@@ -93,6 +101,14 @@ def run(ctx):
         compare(ctx, "Batcher(tuple)", c, [[x, x] for x in exp["batches"]], safe(lock))
         compare(ctx, "BatcherIter(tuple)", c, [[x, x] for x in exp["batches"]],
                 safe(lambda: [[list(p[0]), [y - 100 for y in p[1]]] for p in g.BatcherIter((iter(data), [x + 100 for x in data]), b)]))
+        # iterables of different lengths: documented to stop with the shortest, still in lock-step
+        for extra_first, extra_second in ((0, 1), (2, 0), (0, b + 1)):
+            def uneq():
+                first = iter(data + [900 + j for j in range(extra_first)])
+                second = [x + 100 for x in data] + [1000 + j for j in range(extra_second)]
+                third = iter([x + 200 for x in data] + [2000])
+                return [[list(p[0]), [y - 100 for y in p[1]], [y - 200 for y in p[2]]] for p in g.BatcherIter((first, second, third), b)]
+            compare(ctx, "BatcherIter(tuple, unequal +%d/+%d)" % (extra_first, extra_second), c, [[x, x, x] for x in exp["batches"]], safe(uneq))
         # indexing past the end is rejected
         def past():
             try:
